@@ -19,3 +19,34 @@ func VerifC06Check(graph *BuildGraph) (bool, []*BuildTarget) {
 	}
 	return false, nil
 }
+
+// VerifC06Detector is ONE cycleDetector that is kept between calls of Check, the way
+// BuildState keeps state.progress.cycleDetector and runs it every time the build goes idle
+// while dependencies are still being resolved.
+type VerifC06Detector struct {
+	d *cycleDetector
+}
+
+// VerifC06NewDetector makes a detector over graph exactly as NewBuildState does.
+func VerifC06NewDetector(graph *BuildGraph) *VerifC06Detector {
+	return &VerifC06Detector{d: &cycleDetector{graph: graph}}
+}
+
+// VerifC06StateDetector returns the detector that NewBuildState put into state (it runs over
+// state.Graph); state.checkForCycles() calls Check on this very object.
+func VerifC06StateDetector(state *BuildState) *VerifC06Detector {
+	return &VerifC06Detector{d: &state.progress.cycleDetector}
+}
+
+// Check runs one more pass of the same detector.
+func (v *VerifC06Detector) Check() (bool, []*BuildTarget) {
+	if err := v.d.Check(); err != nil {
+		return true, err.Cycle
+	}
+	return false, nil
+}
+
+// Stop is cycleDetector.Stop (BuildState.CloseResults calls it).
+func (v *VerifC06Detector) Stop() {
+	v.d.Stop()
+}
